@@ -159,7 +159,7 @@ class RefGraph:
             for x in geom.desc_atoms(d):
                 if x not in self.atoms:
                     return False
-            if where in ("bstereo", "bchange") and len(key) != 2:
+            if where in ("bstereo", "bchange") and (len(key) != 2 or key not in self.bonds):
                 return False
         return self.role_consistent()
 
@@ -176,6 +176,23 @@ class RefGraph:
             br = self.bonds[b].get("reaction")
             for r in t:
                 if br not in ok[r]:
+                    return False
+        return True
+
+    def faithful(self):
+        """every atom-centred descriptor names exactly the bonded neighbours
+        of its centre - on every side (reactant, product, transition
+        structure) of a reaction graph.  The library's colour refinement
+        takes the neighbourhood of such an atom from the descriptor alone,
+        so on other graphs bonds and bond roles can be invisible to it
+        (known finding KF-unfaithful-stereo)."""
+        if not self.is_stereo:
+            return True
+        sides = [self] if not self.is_reaction else [side(self, w) for w in ("R", "P", "TS")]
+        for g in sides:
+            n = g.neighbours()
+            for a, d in g.astereo.items():
+                if a not in n or {x for x in d[1][1:] if x is not None} != n[a]:
                     return False
         return True
 
